@@ -73,6 +73,7 @@ crate::harnesses! {
 
     /// parse_number under syntax flags F_NOREQ_EXPD == documented grammar; strings len <= 5 over {0 1 9 + - e E . a}.
     /// @prop C12 C10~
+    /// @tier thorough
     /// @feat format radix_format
     /// @bound one of 17 instantiated flag combinations; input length <= 5 over {0 1 9 + - e E . a}
     /// @fn lexical-parse-float::parse::parse_number (flag-dependent branches)
@@ -82,6 +83,7 @@ crate::harnesses! {
 
     /// parse_number under syntax flags F_NOREQ_MANT == documented grammar; strings len <= 5 over {0 1 9 + - e E . a}.
     /// @prop C12 C10~
+    /// @tier thorough
     /// @feat format radix_format
     /// @bound one of 17 instantiated flag combinations; input length <= 5 over {0 1 9 + - e E . a}
     /// @fn lexical-parse-float::parse::parse_number (flag-dependent branches)
@@ -163,6 +165,7 @@ crate::harnesses! {
 
     /// parse_number under syntax flags F_REQ_EXP_NOREQ_MANT == documented grammar; strings len <= 5 over {0 1 9 + - e E . a}.
     /// @prop C12 C10~
+    /// @tier thorough
     /// @feat format radix_format
     /// @bound one of 17 instantiated flag combinations; input length <= 5 over {0 1 9 + - e E . a}
     /// @fn lexical-parse-float::parse::parse_number (flag-dependent branches)
@@ -172,6 +175,7 @@ crate::harnesses! {
 
     /// parse_number under syntax flags F_REQ_EXP_REQ_SIGN == documented grammar; strings len <= 5 over {0 1 9 + - e E . a}.
     /// @prop C12 C10~
+    /// @tier thorough
     /// @feat format radix_format
     /// @bound one of 17 instantiated flag combinations; input length <= 5 over {0 1 9 + - e E . a}
     /// @fn lexical-parse-float::parse::parse_number (flag-dependent branches)
@@ -181,6 +185,7 @@ crate::harnesses! {
 
     /// parse_number under syntax flags F_NO_EXP_WO_FRAC_REQ_FRAC == documented grammar; strings len <= 5 over {0 1 9 + - e E . a}.
     /// @prop C12 C10~
+    /// @tier thorough
     /// @feat format radix_format
     /// @bound one of 17 instantiated flag combinations; input length <= 5 over {0 1 9 + - e E . a}
     /// @fn lexical-parse-float::parse::parse_number (flag-dependent branches)
@@ -190,6 +195,7 @@ crate::harnesses! {
 
     /// parse_number under syntax flags F_NO_LZ_REQ_INT == documented grammar; strings len <= 5 over {0 1 9 + - e E . a}.
     /// @prop C12 C10~
+    /// @tier thorough
     /// @feat format radix_format
     /// @bound one of 17 instantiated flag combinations; input length <= 5 over {0 1 9 + - e E . a}
     /// @fn lexical-parse-float::parse::parse_number (flag-dependent branches)
